@@ -296,6 +296,9 @@ CODEGEN_CASES = [
     ('collide-config', "start: _config $ ;\n\n_config: 'a' ;\n", ['a'], None, 'rule-name-collides-in-generated-class'),
     ('collide-module', "start: tatsu $ ;\n\ntatsu: 'a' ;\n\nb: 'b' ;\n", ['a'], None, 'rule-name-collides-in-generated-class'),
     ('no-collision-near-misses', "start: config_ parse_ $ ;\n\nconfig_: 'a' ;\n\nparse_: 'b' ;\n", ['a b', 'a'], None, None),
+    # rule names that Python spells differently once they are identifiers (NFKC): the start rule is looked up by name
+    ('nfkc-start-rule', "\u00b5: 'a' \ufb01 $ ;\n\n\ufb01: 'b' ;\n", ['a b', 'a'], None, None),
+    ('nfkc-fullwidth-start', "\uff53tart: 'a' $ ;\n", ['a', 'b'], None, None),
     # an action that returns a plain list
     ('list-action', "start: r 'c' r $ | 'c' r $ | x:r 'c' $ | 'b' x+:r x+:r $ ;\n\nr: 'a' ;\n", ['a c a', 'c a', 'a c', 'b a a'], 'list', None),
     ('list-action-repeats', "start: {r}+ $ | 'c' ','.{r}+ $ | 'b' (r) [r] $ | 'b' 'b' @:r r $ ;\n\nr: 'a' ;\n", ['a a', 'c a,a', 'b a a', 'b a', 'b b a a'], 'list', None),
